@@ -22,7 +22,7 @@ NOT decided: bitwise determinism of numpy / scipy / numba / rustworkx across mac
 """
 import ast
 
-from ..astutil import call_name, calls, dotted, func_defaults, kwarg, last_name, u
+from ..astutil import call_name, calls, dotted, func_defaults, kwarg, last_name, parents, u
 from ..model import AnalysisError
 
 SEED_FN = "run.instantiate_and_seed_RNG"
@@ -2110,6 +2110,76 @@ def rule_R4(ctx, world, tracer, reach, facts):
         ctx.analysed(fi)
 
 
+def rule_R3q(ctx):
+    """A query of a repository class (a property or a method) that hands out a set / frozenset, and whose result some
+    caller iterates, lists or indexes: the order that caller sees is the set's hash order.  R3 follows sets created and
+    observed inside one function; this clause covers the hand-over through an attribute read, which R3's local
+    data-flow does not see.  Sets of integers (graph indices, data point indices) iterate in a seed-independent order."""
+    prog = ctx.prog
+    ctx.rule("R3q", "no query of a repository class returns a set / frozenset of non-integers that a caller observes in order (list(), for, indexing, shuffle)", 1)
+
+    def set_valued(e):
+        if isinstance(e, (ast.Set, ast.SetComp)):
+            return True
+        if isinstance(e, ast.Call) and isinstance(e.func, ast.Name) and e.func.id in ("set", "frozenset"):
+            return True
+        if isinstance(e, ast.BinOp) and isinstance(e.op, (ast.BitOr, ast.BitAnd, ast.Sub, ast.BitXor)):
+            return set_valued(e.left) or set_valued(e.right)
+        return False
+
+    def int_elements(e):
+        """Syntactic evidence that the elements are integers: built from range(...), node indices, `.idx` attributes."""
+        txt = ast.unparse(e)
+        return any(t in txt for t in ("node_indices()", ".idx ", ".idx)", ".idx}", "range(", "_node_indices_rev", "descendants(", "successor_indices", "predecessor_indices"))
+
+    queries = {}
+    for ci in prog.classes.values():
+        for name, kinds in ci.properties.items():
+            g = kinds.get("getter")
+            if g is not None:
+                queries.setdefault(name, []).append((ci, g, True))
+        for name, m in ci.methods.items():
+            if not name.startswith("__"):
+                queries.setdefault(name, []).append((ci, m, False))
+    n = 0
+    for name, items in sorted(queries.items()):
+        for ci, g, is_prop in items:
+            rets = [r.value for r in ast.walk(g.node) if isinstance(r, ast.Return) and r.value is not None]
+            local_sets = {t.id for a in ast.walk(g.node) if isinstance(a, ast.Assign) and set_valued(a.value) for t in a.targets if isinstance(t, ast.Name)}
+            bad_rets = [r for r in rets if (set_valued(r) or (isinstance(r, ast.Name) and r.id in local_sets)) and not int_elements(r)]
+            if not bad_rets:
+                continue
+            n += 1
+            # who observes the order of X.<name> / X.<name>()
+            obs = []
+            for f in prog.functions.values():
+                pm = None
+                for x in ast.walk(f.node):
+                    if not (isinstance(x, ast.Attribute) and x.attr == name and isinstance(x.ctx, ast.Load)):
+                        continue
+                    if pm is None:
+                        pm = parents(f.node)
+                    node = x
+                    par = pm.get(id(node))
+                    if not is_prop:
+                        if not (isinstance(par, ast.Call) and par.func is node):
+                            continue
+                        node, par = par, pm.get(id(par))
+                    if isinstance(par, ast.Call) and isinstance(par.func, ast.Name) and par.func.id in ("list", "tuple", "enumerate", "iter", "next") and node in par.args:
+                        obs.append((f, par, "%s(...)" % par.func.id))
+                    elif isinstance(par, (ast.For, ast.comprehension)) and par.iter is node:
+                        tgt_owner = pm.get(id(par)) if isinstance(par, ast.comprehension) else None
+                        if isinstance(tgt_owner, (ast.SetComp,)):
+                            continue
+                        obs.append((f, x, "iteration"))
+                    elif isinstance(par, ast.Subscript) and par.value is node:
+                        obs.append((f, x, "indexing"))
+                    elif isinstance(par, ast.Call) and call_name(par).split(".")[-1] in ("array", "asarray", "shuffle", "choice", "permutation") and node in par.args:
+                        obs.append((f, par, call_name(par)))
+            ctx.check(not obs, "R3q", "%s.%s hands out a set whose order nobody observes" % (ci.name, name), g.where(bad_rets[0]), "%s.%s returns %s, and %s observes its order (%s): for elements hashed by a string (data points hash by name) that order changes with PYTHONHASHSEED" % (ci.name, name, u(bad_rets[0])[:60], obs[0][0].qualname.split("phyclone.")[-1] if obs else "", obs[0][2] if obs else ""), construct=g.qualname, stmt="set-valued query")
+    ctx.ok("R3q", "%d set-valued quer%s of repository classes inspected" % (n, "y" if n == 1 else "ies"), "phyclone")
+
+
 def run(ctx):
     ctx.assume("numpy Generator / SeedSequence.spawn, scipy rvs(random_state=Generator), numba and rustworkx are deterministic functions of their inputs (bitwise library determinism is not decided)")
     ctx.assume("hash(int) and hash(frozenset of ints) do not depend on PYTHONHASHSEED; str / bytes hashes do; set iteration order is a function of element hashes and insertion history")
@@ -2125,11 +2195,7 @@ def run(ctx):
     ctx.soft(rule_R2, world, tracer)
     facts = ctx.soft(rule_R3, world, tracer, reach)
     ctx.soft(rule_R4, world, tracer, reach, facts)
-    # the tree's queries hand out lists in the order the reference semantics gives (a query re-typed to a set is an
-    # order that depends on the hash seed): same rule object as C06 / C07.TS
-    from . import _premises
-
-    _premises.tree_editor(ctx, owners=("tree.Tree",))
+    ctx.soft(rule_R3q)
 
 
 # Self-test catalogue: one small textual edit each, applied to a scratch copy (see selftest.py).
@@ -2145,6 +2211,7 @@ _M = "phyclone/utils/math.py"
 _T = "phyclone/tree/tree.py"
 _IMP_NP_KB = {"file": _KB, "old": "from phyclone.smc.swarm import Particle\n", "new": "import numpy as np\nfrom phyclone.smc.swarm import Particle\n"}
 SELFTEST = [
+    {"name": "R3q-outliers-query-returns-a-frozenset", "kind": "break", "rule": "R3q", "file": _T, "old": "        return list(self._data[self._OUTLIER_NODE_NAME])\n", "new": "        return frozenset(self._data[self._OUTLIER_NODE_NAME])\n"},
     {"name": "R2-pool-of-four-workers", "kind": "break", "rule": "R2", "file": "phyclone/run.py", "old": "ProcessPoolExecutor(max_workers=num_chains,", "new": "ProcessPoolExecutor(max_workers=min(num_chains, 4),"},
     {"name": "R2-pool-default-size", "kind": "break", "rule": "R2", "file": "phyclone/run.py", "old": "ProcessPoolExecutor(max_workers=num_chains, mp_context", "new": "ProcessPoolExecutor(mp_context"},
     # ---- R1 / R1f -----------------------------------------------------------------------------------
